@@ -21,8 +21,9 @@ from ..rec import Recorder
 PROPERTY = 'C09'
 LEVEL = 'exploration'
 RULE = ('histories of 10-40 parse calls (random interleavings of 8-14 documents, plus all 6 orderings of document '
-        'triples) in one process sharing the default context or one generated custom context that uses every standard '
-        'argument type (incl. nested / unterminated verbatim arguments), strict and tolerant, including documents '
+        'triples) in one process sharing the default context, one generated custom context that uses every standard '
+        'argument type (incl. nested / unterminated verbatim arguments), or a context with an auto-named first category '
+        'and a \\newcommand-like macro that extends the context while parsing; strict and tolerant, including documents '
         'that fail; every call is compared with the same call made as the only parse of a fresh interpreter. '
         'Non-trivial = history position >= 2 whose document has >= 3 node kinds or fails; distinct = distinct '
         '(history prefix hash, document, flags).')
@@ -36,23 +37,28 @@ ROOT = os.path.dirname(os.path.dirname(os.path.dirname(os.path.abspath(__file__)
 
 SPECIAL_CUSTOM = ['\\vv{a{b}c}', '\\vv{a{b', '\\vv|x|', '\\vv{', '\\vvb{x}{a{b}c}y', '\\vv{{{', 'a\\vv{x}b\\vv{p{q}r}c',
                   '\\vvb{\\vv{u{v}w}}{z}', '\\txt{a $b$ c}', '$\\txt{a}$', '\\begin{mathenv}x\\end{mathenv}']
+SPECIAL_DEFS = ['\\defmacro{foo} \\foo{x} y', 'Here \\foo{x} is not defined.', '{\\defmacro{bar}\\bar{1}} \\bar{2}',
+                '\\defmacro{foo}\\defmacro{baz}\\baz{\\foo{q}}r', '\\baz{a}{b}', '\\begin{fooenv}[o]x\\end{fooenv}',
+                '\\defmacro{foo}\\begin{fooenv}[o]x\\end{fooenv}', '$\\defmacro{qq}\\qq{1}$ \\qq{2}', '\\bar{1}\\qq{2}']
 SPECIAL_DEFAULT = ['\\verb|a{b|', '\\begin{verbatim}{{\\end{verbatim}', '\\begin{lstlisting}[a=b]{\\end{lstlisting}',
                    '\\textbf{a', 'a}b', '$x', '\\begin{itemize}\\item a', '\\newcommand\\foo[1]{x#1}', '\\\\*[2pt]a',
                    '\\cite[a][b]{k}', '\\section*{t}']
 
 
 def plan(tier, seed):
+    kinds = ['default', 'custom', 'defs', 'custom']
     if tier == 'quick':
-        return [{'vocab': 'default' if k % 2 == 0 else 'custom', 'histories': 3, 'maxlen': 24, 'ndocs': 10,
+        return [{'vocab': kinds[k % 4], 'histories': 3, 'maxlen': 24, 'ndocs': 10,
                  'name': 'hist%d' % k} for k in range(16)]
-    return [{'vocab': 'default' if k % 2 == 0 else 'custom', 'histories': 10, 'maxlen': 40, 'ndocs': 14,
+    return [{'vocab': kinds[k % 4], 'histories': 10, 'maxlen': 40, 'ndocs': 14,
              'name': 'hist%d' % k} for k in range(32)]
 
 
 def floors(tier):
     return {'evaluations': 1500, 'distinct_nontrivial': 300, 'fresh_interpreter_references': 150,
             'history_calls_compared': 1500, 'db_snapshots_compared': 1500, 'hist:mode:strict': 300,
-            'hist:mode:tolerant': 300, 'hist:outcome:parse_error': 30, 'verbatim_arg_documents': 10}
+            'hist:mode:tolerant': 300, 'hist:outcome:parse_error': 30, 'verbatim_arg_documents': 10,
+            'context_extending_documents': 9}
 
 
 def setup(rec):
@@ -161,13 +167,19 @@ def run_shard(desc, rec):
     rng = rng_for(desc)
     refs_by_ctx = {}
     for h in range(desc['histories']):
-        src = work.DocSource(rng, desc['vocab'], depth=4, per_vocab=10 ** 9, cover_base=rng.randrange(1000))
+        src = work.DocSource(rng, 'default' if desc['vocab'] == 'defs' else desc['vocab'], depth=4, per_vocab=10 ** 9,
+                             cover_base=rng.randrange(1000))
         docs = []
         cdesc = None
         for _ in range(desc['ndocs']):
             s, ast, bounds, vocab, db, cdesc = src.next()
             docs.append(s)
-        docs += rng.sample(SPECIAL_CUSTOM if desc['vocab'] == 'custom' else SPECIAL_DEFAULT, 5)
+        if desc['vocab'] == 'defs':
+            cdesc = {'vocab': 'defs'}
+            docs = docs[:4] + list(SPECIAL_DEFS)
+            rec.monitor('context_extending_documents', len(SPECIAL_DEFS))
+        else:
+            docs += rng.sample(SPECIAL_CUSTOM if desc['vocab'] == 'custom' else SPECIAL_DEFAULT, 5)
         # some documents broken on purpose (they fail in strict mode / recover in tolerant mode)
         for _ in range(3):
             s = rng.choice(docs)
